@@ -297,6 +297,31 @@ class Engine(object):
                 pass
         return m
 
+    def prove_all(self, items, case=None):
+        """Several obligations discharged by one solver query (their conjunction)."""
+        terms = []
+        for cond, label in items:
+            self.stats.inc('obligations')
+            t = z3.simplify(_bool_term(cond))
+            if z3.is_true(t):
+                self.stats.inc('discharged')
+                continue
+            terms.append((t, label))
+        if not terms:
+            return True
+        neg = z3.Not(z3.And(*[t for t, _ in terms]))
+        if not self._check(neg):
+            self.stats.inc('discharged', len(terms))
+            return True
+        m = self._small_model(neg)
+        label = 'obligation failed'
+        for t, l in terms:
+            if z3.is_false(m.eval(t, model_completion=True)):
+                label = l
+                break
+        self._record_cex(m, label, case)
+        raise PathAbort()
+
     def fail(self, label, case=None):
         """The real code misbehaved on this (feasible) path."""
         self.stats.inc('obligations')
@@ -435,6 +460,18 @@ def wrap_int(term, dt):
     return z3.If(term < 0, term + m, z3.If(term >= m, term - m, term))
 
 
+_IV = {}
+
+
+def _iv(n):
+    t = _IV.get(n)
+    if t is None:
+        t = z3.IntVal(n)
+        if -1024 <= n <= 65536:
+            _IV[n] = t
+    return t
+
+
 def _classify(x):
     """Return (kind, term, dt) with kind in 'b','i','r' or None if not numeric."""
     if isinstance(x, SymInt):
@@ -446,9 +483,9 @@ def _classify(x):
     if isinstance(x, (bool, _np.bool_)):
         return 'b', z3.BoolVal(bool(x)), None
     if isinstance(x, int):
-        return 'i', z3.IntVal(x), None
+        return 'i', _iv(x), None
     if isinstance(x, _np.integer):
-        return 'i', z3.IntVal(int(x)), x.dtype
+        return 'i', _iv(int(x)), x.dtype
     if isinstance(x, float):
         return 'r', _realval(x), None
     if isinstance(x, _np.floating):
@@ -468,7 +505,7 @@ def _realval(f):
 
 
 def _b2i(term):
-    return z3.If(term, z3.IntVal(1), z3.IntVal(0))
+    return z3.If(term, _iv(1), _iv(0))
 
 
 def _res_dt(d1, d2, k1, k2):
